@@ -140,7 +140,7 @@ type txModel struct {
 	hash      []byte
 	owner     *mbModel   // miniblock of the most recent record that contained the transaction
 	hist      []*mbModel // every miniblock it was ever recorded in
-	ambiguous bool       // a repeated record of an older block re-committed it in another miniblock (see Assumptions): not asserted
+	viaRepeat bool       // its owner was restored by a repeated record of an older block (fork choice flipped back after a re-pack)
 }
 
 func buildMb(id int, dir, ntx, typ int, self uint32, m marshal.Marshalizer, h hashing.Hasher, prefix string) *mbModel {
@@ -575,21 +575,19 @@ func (w *world) record(step int, st *simkit.Step) {
 				t.hist = append(t.hist, m)
 			}
 			switch {
-			case sameAsLast && t.owner != m:
-				// the repeated record of the same block is skipped as a whole by the repository, so the index keeps the
-				// other miniblock: reported as a finding candidate, not asserted (see Assumptions)
-				t.ambiguous = true
+			case (sameAsLast || maybeSkipped) && t.owner != m:
+				// a repeated record of the same block (the repository may skip the metadata insert) after a competing block
+				// re-packed the transaction: the block recorded now is the most recent one that contains the transaction
+				t.owner, t.viaRepeat = m, true
 				c.Probe("repacked_tx_recommitted_by_repeated_record")
-			case sameAsLast:
-			case maybeSkipped && t.owner != m:
-				t.owner, t.ambiguous = m, true
-			case maybeSkipped:
+				w.competing++
+			case sameAsLast || maybeSkipped:
 			default:
 				if t.owner != nil && t.owner != m && !fired {
 					c.Probe("tx_repacked_into_other_miniblock")
 					w.competing++
 				}
-				t.owner, t.ambiguous = m, false
+				t.owner, t.viaRepeat = m, false
 			}
 		}
 		if fired {
@@ -608,6 +606,7 @@ func (w *world) record(step int, st *simkit.Step) {
 		same := m.cur != nil && m.cur.block == bID && m.cur.epoch == epoch && m.idempotentOK
 		if same {
 			c.Probe("repeated_record_of_same_block")
+			m.cur.step = step // the same block, committed again now
 			continue
 		}
 		if m.cur != nil && m.cur.block != bID {
@@ -795,7 +794,7 @@ func (w *world) check() {
 		if m == nil || m.cur == nil {
 			continue
 		}
-		relaxed := m.tainted || t.ambiguous
+		relaxed := m.tainted
 		md, err := w.repo.GetMiniblockMetadataByTxHash(t.hash)
 		if err != nil {
 			ownedBad[m]++
@@ -821,7 +820,7 @@ func (w *world) check() {
 					ti, m.id, md.HeaderHash[:4], md.Epoch, md.HeaderNonce, md.Round, m.cur.block, m.cur.hash[:4], m.cur.epoch, m.cur.nonce, m.cur.round)
 				return
 			case relaxed:
-				// a failed record may be missing / a re-commit by a repeated record is not asserted: an older record is acceptable
+				// a failed record may be missing: an older record is acceptable
 			default:
 				cls := "competing-cross-epoch"
 				if stale.epoch == m.cur.epoch {
@@ -829,6 +828,9 @@ func (w *world) check() {
 				}
 				if oldMb != m {
 					cls = "repacked-in-competing-block"
+					if t.viaRepeat {
+						cls = "repeated-record-after-repack"
+					}
 				}
 				c.Violate("C46", "names-dropped-block", site+"/"+cls, "tx %d: lookup names block %d (miniblock %d, header %x, epoch %d, recorded at step %d) but the most recent record of the transaction is block %d (miniblock %d, header %x, epoch %d, step %d)",
 					ti, stale.block, oldMb.id, stale.hash[:4], stale.epoch, stale.step, m.cur.block, m.id, m.cur.hash[:4], m.cur.epoch, m.cur.step)
